@@ -1,0 +1,8 @@
+//go:build verif
+
+package json
+
+// VerifDepth returns the number of open containers the parser tracks (read-only, verif build tag only).
+func (p *Parser) VerifDepth() int {
+	return len(p.state) - 1
+}
